@@ -170,8 +170,9 @@ def _start_seed(rng):
     if u < 0.2:
         return rng.randint(1, 12)
     if u < 0.5:
-        p = 1 << rng.randint(1, 19)
-        return max(1, p + rng.randint(-3, 3))
+        # windows around (and across) a power of two, the large ones as often as the small ones
+        p = 1 << (rng.randint(16, 19) if rng.random() < 0.5 else rng.randint(1, 19))
+        return max(1, p + rng.choice([-3, -2, -1, 0, 1, 2, 3, -rng.randint(1, 200), -rng.randint(1, 40)]))
     if u < 0.6:
         return 10 ** 6 - rng.randint(0, 3)
     return rng.randint(1, 10 ** 6)
@@ -259,6 +260,15 @@ def run(ctx, explain=False):
     nsess = ctx.pick(40, 400)
     rng = random.Random(ctx.seed * 65537 + 20)
     sessions = [session(rng, ctx.pick(6000, 12000), ctx.pick(1.2e9, 4e9)) for _ in range(nsess)]
+    # windows that start just below a large power of two and end just above it (the index gains a bit inside the window)
+    for e in (16, 17, 18, 19):
+        for (a, b) in ((1, 1), (5, 30), (200, 40)):
+            D = rng.choice([1, 2, 3, 5])
+            lo, hi = (1 << e) - a, (1 << e) + b
+            calls = [["batch", "sobol", lo, hi, D], ["front", "sobol", hi - lo + 1, D, lo]]
+            calls += [["single", "sobol", sd, D, 0] for sd in sorted({lo, (1 << e) - 1, 1 << e, (1 << e) + 1, (1 << e) + 2, hi})]
+            rng.shuffle(calls)
+            sessions.append({"calls": calls, "source": "power-of-two-crossing"})
     # windows that start at the first point: the net properties are checked on the returned numbers
     for i in range(ctx.pick(6, 40)):
         D = [1, 2, 3, 8, 40, 1000][i] if i < 6 else rng.randint(1, 1000)
